@@ -98,15 +98,15 @@ func C17(tier Tier) int {
 	}
 	o.Violations = e.Viols
 	o.Coverage = map[string]interface{}{
-		"evaluations":         e.Evals,
-		"distinct_nontrivial": len(e.Distinct),
-		"rule":                "for every successful transition class of the catalogue (23 functions x side x same/cross-shard x with/without attached call x refunds) the dependency trace t1..tN of the call is recorded through the environment's single choke point, then the call is re-executed N times with the k-th call failing; a case is distinct by (function, dependency kind) and non-trivial when the fault was actually injected (the k-th call happened)",
-		"samples":             e.Samples,
-		"scenarios":           len(cat),
-		"fault_points":        points,
+		"evaluations":          e.Evals,
+		"distinct_nontrivial":  len(e.Distinct),
+		"rule":                 "for every successful transition class of the catalogue (23 functions x side x same/cross-shard x with/without attached call x refunds) the dependency trace t1..tN of the call is recorded through the environment's single choke point, then the call is re-executed N times with the k-th call failing; a case is distinct by (function, dependency kind) and non-trivial when the fault was actually injected (the k-th call happened)",
+		"samples":              e.Samples,
+		"scenarios":            len(cat),
+		"fault_points":         points,
 		"fault_points_by_kind": kinds,
-		"exhaustive":          true,
-		"observation_classes": e.Distinct,
+		"exhaustive":           true,
+		"observation_classes":  e.Distinct,
 	}
 	return Finish(o)
 }
